@@ -397,7 +397,9 @@ func (s *Sess) SetVersioning(b string, enable bool) Resp {
 	if enable {
 		status = "Enabled"
 	}
-	body := `<VersioningConfiguration xmlns="http://s3.amazonaws.com/doc/2006-03-01/"><Status>` + status + `</Status></VersioningConfiguration>`
+	// (the status word is read without regard to case and surrounding blanks)
+	spelt := []string{status, strings.ToUpper(status), status, strings.ToLower(status), status, " " + status + "\n"}[s.verDocs%6]
+	body := `<VersioningConfiguration xmlns="http://s3.amazonaws.com/doc/2006-03-01/"><Status>` + spelt + `</Status></VersioningConfiguration>`
 	if s.verDocs++; !enable && s.verDocs%3 == 0 {
 		// a document that does not mention the status (what GET ?versioning answers for a bucket that never
 		// had versioning, sent back; or one that only speaks of MfaDelete): versioning is not enabled by it,
